@@ -25,7 +25,7 @@
 
    Out of scope (absent from the syntax; other properties cover them): patches (SMP, JSON-6902), images, replicas,
    replacements, vars, components, `configurations:`/`crds:`, helm, external plugins, `generatorOptions:`, file /
-   env sources and `behavior: merge|replace` of generators, `buildMetadata`, custom openapi schemas, `kind: List`
+   env sources and binary (non UTF-8) values of generators, `buildMetadata`, custom openapi schemas, `kind: List`
    documents, the local-config annotation (IgnoreLocal), documents that already carry internal.config.kubernetes.io
    build annotations.  Definitions only; proofs are in Res/PipelineProofs.v. *)
 From KV Require Export Res.BuildRefs.
@@ -42,6 +42,7 @@ Definition pairs := list (string * string).
 Record pgen := mkPGen {
   pg_name : string;
   pg_ns : string;
+  pg_behavior : string;               (* behavior: "" | create | replace | merge *)
   pg_literals : list string;          (* literals: the raw "k=v" strings *)
   pg_type : string;                   (* secrets only *)
   pg_has_opts : bool;                 (* options: present *)
@@ -153,17 +154,133 @@ Section Pipeline.
              data_field secret m)%list).
 
   (* resmap.Factory.NewResMapFromConfigMapArgs / ...SecretArgs: the generated resource with its options
-     (needsHashSuffix unless disabled; behaviour unspecified = create) *)
+     (needsHashSuffix unless disabled); the behaviour annotation is kept beside it *)
   Definition gen_resource (secret : bool) (g : pgen) : res resource :=
     do n <- gen_node secret g;
     Ok (mkRes n None None None None None (negb (pg_has_opts g && pg_disable_hash g))).
 
+  (* ----- resWrangler.appendReplaceOrMerge ----- *)
+
+  (* GetMatchingResourcesByAnyId(id.Equals): positions of the resources one of whose PrevIds ++ [CurId] equals id *)
+  Fixpoint matching_any (id : resid) (i : nat) (m : list resource) : res (list nat) :=
+    match m with
+    | [] => Ok []
+    | r :: t =>
+        if nil_or_empty (r_node r) then matching_any id (S i) t else
+        do p <- prev_ids r;
+        do rest <- matching_any id (S i) t;
+        Ok (if existsb (fun x => id_equals id x) (p ++ [cur_id pipe_cs r])%list then i :: rest else rest)
+    end.
+
+  (* RNode.GetLabels / GetAnnotations / GetDataMap: a Go map (later duplicates win), kept sorted by key *)
+  Definition node_pairs (o : option node) : Generators.dict :=
+    match o with
+    | Some (Map kvs) => Generators.dict_of_pairs (map (fun kv => (fst kv, node_value (snd kv))) kvs)
+    | _ => []
+    end.
+  Definition meta_field (f : string) (n : node) : option node :=
+    match get_meta n with
+    | Some (Map mkvs) => find_field f mkvs
+    | _ => None
+    end.
+
+  (* RNode.setMapInMetadata (SetLabels / SetAnnotations): the field is cleared, then rebuilt at the end of
+     metadata with sorted keys and !!str values; nothing for an empty map *)
+  Definition set_meta_map (f : string) (m : Generators.dict) (n : node) : res node :=
+    match n with
+    | Map kvs =>
+        match find_field "metadata" kvs with
+        | Some (Map mkvs) =>
+            Ok (Map (set_first "metadata" (Map (remove_first f mkvs ++ meta_map_field f m)%list) kvs))
+        | _ => Err
+        end
+    | _ => Err
+    end.
+
+  (* RNode.SetNamespace: the field is dropped for an empty namespace *)
+  Definition set_namespace (ns : string) (n : node) : res node :=
+    if String.eqb ns "" then do r <- clear_at [PKey "metadata"] "namespace" n; Ok (fst r)
+    else do r <- put nonstr [PKey "metadata"] "namespace" (Scalar TNone SPlain ns) n; Ok (fst r).
+
+  (* RNode.SetDataMap / SetBinaryDataMap: Clear, then LoadMapInto...Data (sorted keys, !!str values) *)
+  Definition set_top_map (f : string) (m : Generators.dict) (n : node) : res node :=
+    match n with
+    | Map kvs =>
+        Ok (Map (remove_first f kvs ++
+                 match m with
+                 | [] => []
+                 | _ => [(f, Map (map (fun kv => (fst kv, str_node (snd kv))) m))]
+                 end)%list)
+    | _ => Err
+    end.
+
+  (* Resource.CopyMergeMetaDataFieldsFrom(old): labels and (user) annotations of old overridden by r's, name and
+     namespace of old; every build annotation comes from old, the hash request survives only if both have it *)
+  Definition copy_merge_meta (r old : resource) : res resource :=
+    do n1 <- set_meta_map "labels"
+               (Generators.dict_override (node_pairs (meta_field "labels" (r_node old)))
+                                         (node_pairs (meta_field "labels" (r_node r)))) (r_node r);
+    do n2 <- set_meta_map "annotations"
+               (Generators.dict_override (node_pairs (meta_field "annotations" (r_node old)))
+                                         (node_pairs (meta_field "annotations" (r_node r)))) n1;
+    do n3 <- set_name nonstr (get_name (r_node old)) n2;
+    do n4 <- set_namespace (get_namespace (r_node old)) n3;
+    Ok (mkRes n4 (r_pnames old) (r_pnss old) (r_pkinds old) (r_prefixes old) (r_suffixes old)
+              (r_needs_hash old && r_needs_hash r)).
+
+  (* Resource.MergeDataMapFrom / MergeBinaryDataMapFrom: entries of r win *)
+  Definition merge_data_from (r old : resource) : res resource :=
+    do n1 <- set_top_map "data"
+               (Generators.dict_override (node_pairs (map_field_value "data" (r_node old)))
+                                         (node_pairs (map_field_value "data" (r_node r)))) (r_node r);
+    do n2 <- set_top_map "binaryData"
+               (Generators.dict_override (node_pairs (map_field_value "binaryData" (r_node old)))
+                                         (node_pairs (map_field_value "binaryData" (r_node r)))) n1;
+    Ok (with_node r n2).
+
+  (* resWrangler.Replace: the unique resource with r's current id *)
+  Definition index_of_cur (id : resid) (m : list resource) : res (option nat) :=
+    match Generators.indices (fun x => id_equals id (cur_id pipe_cs x)) m with
+    | [] => Ok None
+    | [i] => Ok (Some i)
+    | _ => Err
+    end.
+
+  Definition absorb (m : list resource) (b : Generators.behavior) (r : resource) : res (list resource) :=
+    do ms <- matching_any (cur_id pipe_cs r) 0 m;
+    match Generators.absorb_action (List.length ms) b with
+    | Generators.AAppend => append_one pipe_cs m r
+    | Generators.AReplace | Generators.AMerge =>
+        match ms with
+        | [i] =>
+            match nth_error m i with
+            | Some old =>
+                do r1 <- copy_merge_meta r old;
+                do r2 <- match Generators.absorb_action (List.length ms) b with
+                         | Generators.AMerge => merge_data_from r1 old
+                         | _ => Ok r1
+                         end;
+                do j <- index_of_cur (cur_id pipe_cs r2) m;
+                match j with
+                | Some j' => if Nat.eqb j' i then Ok (replace_nth i r2 m) else Err
+                | None => Err
+                end
+            | None => Err
+            end
+        | _ => Err
+        end
+    | Generators.AError | Generators.AUnclassified => Err
+    end.
+
   (* runGenerators: every configMapGenerator entry, then every secretGenerator entry (generated order),
-     each absorbed in turn (appendReplaceOrMerge with behaviour create) *)
+     each absorbed in turn *)
   Fixpoint run_gens (secret : bool) (gens : list pgen) (m : list resource) : res (list resource) :=
     match gens with
     | [] => Ok m
-    | g :: t => do r <- gen_resource secret g; do m' <- absorb_create pipe_cs m r; run_gens secret t m'
+    | g :: t =>
+        do r <- gen_resource secret g;
+        do m' <- absorb m (Generators.new_behavior (pg_behavior g)) r;
+        run_gens secret t m'
     end.
 
   Fixpoint run_generator_kinds (kinds : list string) (d : pdirs) (m : list resource) : res (list resource) :=
